@@ -4,6 +4,27 @@ use crate::macs;
 use cryptoxide::kdf::argon2;
 use cryptoxide::scrypt::{scrypt, ScryptParams};
 
+/// CRC-32 (IEEE, reflected, as zlib.crc32) - a checksum the library under test does not provide
+fn crc32(d: &[u8]) -> u32 {
+    let mut t = [0u32; 256];
+    for i in 0..256u32 {
+        let mut c = i;
+        for _ in 0..8 {
+            c = if c & 1 != 0 { 0xedb88320 ^ (c >> 1) } else { c >> 1 };
+        }
+        t[i as usize] = c;
+    }
+    let mut c = 0xffff_ffffu32;
+    for b in d {
+        c = t[((c ^ *b as u32) & 0xff) as usize] ^ (c >> 8);
+    }
+    c ^ 0xffff_ffff
+}
+fn summary(o: &[u8]) -> String {
+    let n = std::cmp::min(32, o.len());
+    format!("{:08x}:{}:{}", crc32(o), hex(&o[..n]), hex(&o[o.len() - n..]))
+}
+
 fn argon2_params(ty: &str, ver: &str, t: &str, m: &str, p: &str) -> Result<argon2::Params, String> {
     let prm = match ty {
         "d" => argon2::Params::argon2d(),
@@ -67,6 +88,11 @@ pub fn run(op: &str, a: &[&str]) -> Vec<String> {
     match op {
         // argon2b <type> <T> <pwd> <salt> <key> <aad> <at|arr> <setter>... : Params built by an arbitrary setter history;
         // the same Params value is then used twice (it is borrowed, so the second call must give the same tag)
+        // argon2_accept <type> <setters...> : only builds the Params (nothing is allocated): OK or ERR:<reason>
+        "argon2_accept" => match argon2_params_seq(a[0], &a[1..]) {
+            Ok(_) => vec!["OK".into()],
+            Err(e) => vec![e],
+        },
         "argon2b" => {
             let prm = match argon2_params_seq(a[0], &a[7..]) {
                 Ok(p) => p,
@@ -106,6 +132,20 @@ pub fn run(op: &str, a: &[&str]) -> Vec<String> {
             let mut o = dirty(usz(a[5]));
             scrypt(&pw, &salt, &prm, &mut o);
             vec![hex(&o)]
+        }
+        // scrypt_big / pbkdf2_big : same arguments, for outputs too large to log: reports "<crc32>:<first 32 bytes>:<last 32 bytes>"
+        "scrypt_big" => {
+            let (pw, salt) = (expand(a[0]), expand(a[1]));
+            let prm = ScryptParams::new(u64p(a[2]) as u8, u64p(a[3]) as u32, u64p(a[4]) as u32);
+            let mut o = vec![0x5au8; usz(a[5])];
+            scrypt(&pw, &salt, &prm, &mut o);
+            vec![summary(&o)]
+        }
+        "pbkdf2_big" => {
+            let (pw, salt) = (expand(a[1]), expand(a[2]));
+            let mut o = vec![0x5au8; usz(a[4])];
+            macs::pbkdf2_with(a[0], &pw, &salt, u64p(a[3]) as u32, &mut o);
+            vec![summary(&o)]
         }
         "scrypt_params" => {
             let _ = ScryptParams::new(u64p(a[0]) as u8, u64p(a[1]) as u32, u64p(a[2]) as u32);
